@@ -4,6 +4,7 @@ CONSTANTS
   MaxScope = 3
   RootTys = {"I"}
   Emit = TRUE
+  Mutations = 0
   Prods = {"var","lit","big","add","sub","mul","div","if","let","letu","app1","app2","papp","lam1","lam2","lam11","eff","effm","err","true","false","lt","eq","and","or","mkr","upd","prx","pry","mkp","mtup","none","some","mopt","mpart","mlit","nil","cons","mlist","arr0","arr2","idx","recf"}
 INVARIANTS Sound
 CHECK_DEADLOCK FALSE
